@@ -255,6 +255,32 @@ def padded_graph(fillers, depth, value, width=2):
     return "\n".join(L) + "\n"
 
 
+def lattice(depth, width, value):
+    """`width` different helpers per level, each calling EVERY helper of the level below"""
+    L = ["@group(0) @binding(0) var<storage, read_write> data: array<f32, 4>;",
+         "@group(0) @binding(1) var<uniform> aux: vec4<f32>;"]
+    for w in range(width):
+        if value:
+            L.append("fn l0_%d() -> f32 { return data[%d] + aux.x; }" % (w, w % 4))
+        else:
+            L.append("fn l0_%d() { data[%d] = aux.x; }" % (w, w % 4))
+    for k in range(1, depth + 1):
+        for w in range(width):
+            if value:
+                L.append("fn l%d_%d() -> f32 { return %s; }" % (k, w, " + ".join(
+                    "l%d_%d()" % (k - 1, j) for j in range(width))))
+            else:
+                L.append("fn l%d_%d() { %s }" % (k, w, " ".join(
+                    "l%d_%d();" % (k - 1, j) for j in range(width))))
+    if value:
+        L.append("@compute @workgroup_size(1) fn c0() { data[0] = %s; }" % " + ".join(
+            "l%d_%d()" % (depth, j) for j in range(width)))
+    else:
+        L.append("@compute @workgroup_size(1) fn c0() { %s }" % " ".join(
+            "l%d_%d();" % (depth, j) for j in range(width)))
+    return "\n".join(L) + "\n"
+
+
 ERR_FAMILIES = {"err_sparse_group": "NonConsecutiveBindGroups"}
 
 
@@ -271,6 +297,12 @@ def families(tier):
                      ("workgroup_size", [1, 256, 65535, 2 ** 31 - 1])):
         for k in ks:
             F.append(("magnitude_" + kind, k, magnitude(kind, k)))
+    for d in [2, 4, 8, 12, 16, 24, 32, 48, 64]:
+        F.append(("value_lattice_w2", d, lattice(d, 2, True)))
+        F.append(("void_lattice_w2", d, lattice(d, 2, False)))
+    for d in [2, 4, 8, 12, 16, 24, 32]:
+        F.append(("value_lattice_w3", d, lattice(d, 3, True)))
+        F.append(("void_lattice_w4", d, lattice(d, 4, False)))
     # hundreds of functions: the walk's bookkeeping must not depend on how many there are
     for fillers in [0, 60, 120, 130, 200, 300]:
         F.append(("padded_value_diamond", fillers, padded_graph(fillers, 32, True)))
